@@ -406,23 +406,39 @@ def roots_model(rng):
 def one_run(spec, rng, res, model, gitdir, d, sel, roots):
     binary = spec["sizer"]
     names = rng.choice(spec.get("names_modes", ["full"]))
-    argv = ["--json", "--no-progress", "--show-refs", "--names=" + names] + sel + [sp for sp, _ in roots]
+    argv = ["--json", "--json-version=1", "--no-progress", "--show-refs", "--names=" + names] + sel + [sp for sp, _ in roots]
+    # ambient settings that must not matter because every family is fixed by an explicit option: gitconfig sizer.*
+    # values (command scope) and a chatty git (GIT_TRACE output on the children's stderr)
+    amb = {}
+    if rng.random() < 0.35:
+        kv = [("sizer.names", rng.choice(["none", "hash", "full"])), ("sizer.jsonVersion", rng.choice(["1", "2"])),
+              ("sizer.progress", rng.choice(["true", "false"])), ("sizer.threshold", rng.choice(["0", "30", "2.5"]))]
+        kv = rng.sample(kv, rng.randint(1, 4))
+        amb["GIT_CONFIG_COUNT"] = str(len(kv))
+        for i_, (k_, v_) in enumerate(kv):
+            amb["GIT_CONFIG_KEY_%d" % i_] = k_
+            amb["GIT_CONFIG_VALUE_%d" % i_] = v_
+    if rng.random() < 0.15:
+        amb["GIT_TRACE"] = "1"
     plan = None
     pdir = None
     if spec.get("permute") and rng.random() < spec["permute"]:
         pdir = os.path.join(d, "plan%d" % res["runs"])
         plan = R.make_plan(pdir, [{"sig": "rev-list", "ord": -1, "mode": "permute", "seed": rng.getrandbits(31)}])
-    r = R.sizer(binary, gitdir, argv, shimdir=spec.get("shimdir"), plan=plan, tmpdir=d)
+    r = R.sizer(binary, gitdir, argv, env=amb, shimdir=spec.get("shimdir"), plan=plan, tmpdir=d)
     res["runs"] += 1
     F = res["findings"]
 
     def add(facet, item):
         F.setdefault(facet, []).append(item)
 
-    ctx = {"argv": argv, "repo_seed": [spec["seed"], spec["idx"], spec.get("profile")], "permuted": plan is not None,
+    ctx = {"argv": argv, "ambient": amb, "repo_seed": [spec["seed"], spec["idx"], spec.get("profile")], "permuted": plan is not None,
            "tree_roots": [sp for sp, o in roots if o.kind == "tree"] + [n for n, o in model.refs.items() if o.kind == "tree"]}
     if r.timed_out:
-        add("hang", ("watchdog", "", dict(ctx, stderr=r.err[-3000:])))
+        if R.deadlock_witness(r):
+            add("hang", ("deadlock-witness", "", dict(ctx, stderr=r.err[-3000:])))
+        else:
+            res["inconclusive"].append("watchdog fired without a deadlock witness")
         return
     if r.rc != 0:
         # valid repository, valid options -> a failure is a violation of whichever property the report is for
@@ -462,7 +478,7 @@ def one_run(spec, rng, res, model, gitdir, d, sel, roots):
         plan2 = None
         if plan is not None:
             plan2 = R.make_plan(pdir + "t", [{"sig": "rev-list", "ord": -1, "mode": "permute", "seed": rng.getrandbits(31)}])
-        r2 = R.sizer(binary, gitdir, argv2, shimdir=spec.get("shimdir"), plan=plan2, tmpdir=d)
+        r2 = R.sizer(binary, gitdir, argv2, env=amb, shimdir=spec.get("shimdir"), plan=plan2, tmpdir=d)
         res["runs"] += 1
         if r2.rc != 0 or r2.timed_out:
             add("fail", ("table-run-failed", "", dict(ctx, argv=argv2, rc=r2.rc, stderr=r2.err[-1500:])))
